@@ -51,9 +51,9 @@ def _dry(args):
     c2 = copy.deepcopy(c)
     c2['steps'][2]['fault'] = -1
     try:
-        return T.run_scenario(c2, scratch)[2].get('n_mut', 0)
+        return T.run_scenario(c2, scratch)[2].get('mut_kinds', [])
     except BaseException:
-        return 0
+        return []
 
 
 def cases(seed, tier):
@@ -66,11 +66,18 @@ def cases(seed, tier):
     finally:
         shutil.rmtree(d, ignore_errors=True)
     out = []
-    for c, n in zip(base, ns):
+    for c, kinds in zip(base, ns):
+        n = len(kinds)
         ks = list(range(n))
         limit = 14 if tier == 'quick' else 400
         if len(ks) > limit:
-            ks = sorted(set([0, 1, n - 1, n - 2] + rng.sample(ks, limit - 4)))
+            # always: first/last, every step of a replace sequence (move, link, delete) and the mutation after it
+            crit = {i for i, k in enumerate(kinds) if k in ('move', '__setitem__', '__delitem__')}
+            crit |= {i + 1 for i in crit if i + 1 < n}
+            crit = sorted(crit)
+            if len(crit) > 40:
+                crit = rng.sample(crit, 40)
+            ks = sorted(set([0, 1, n - 1, n - 2] + crit + rng.sample(ks, limit - 4)))
         for k in ks + [None]:
             c2 = copy.deepcopy(c)
             if k is not None:
